@@ -21,6 +21,7 @@ type c14Case struct {
 	TileKind string `json:"tile_kind"`
 	NumByte  int    `json:"num_byte,omitempty"`
 	Both     bool   `json:"both"` // run the parallel twin as well (after the sequential run did not crash)
+	Prior    int    `json:"prior_healthy_bytes,omitempty"` // history: an earlier single-shot detection of this many bytes on a healthy source
 }
 
 func checkC14(c c14Case) (Outcome, error) {
@@ -39,6 +40,10 @@ func checkC14(c c14Case) (Outcome, error) {
 		return r
 	}
 	if c.Workflow == "single" {
+		if c.Prior > 0 {
+			out.Classes = append(out.Classes, "after-a-healthy-call")
+			_, _ = detect.SingleDetect(gen.NewReader(gen.NewRng(uint64(c.Prior)).Bytes(c.Prior)), c.Prior)
+		}
 		v, e := detect.SingleDetect(mk(), c.NumByte)
 		if v || e != nil {
 			// the property: verdict false with a non-nil error?  For the single-shot detection the
@@ -162,6 +167,9 @@ func genC14(t *rapid.T) c14Case {
 		c.Tile = rapid.SampledFrom([]string{"00", "ff"}).Draw(t, "value")
 		c.TileKind = "constant"
 		c.NumByte = rapid.SampledFrom([]int{16, 39, 40, 1279, 1280}).Draw(t, "numbyte")
+		if rapid.IntRange(0, 2).Draw(t, "history") == 0 {
+			c.Prior = rapid.SampledFrom([]int{16, 4096, 65536, 1 << 20}).Draw(t, "prior")
+		}
 		switch rapid.IntRange(0, 3).Draw(t, "lenclass") {
 		case 0:
 			c.NumByte = rapid.IntRange(16, 4096).Draw(t, "numbyte")
